@@ -42,7 +42,8 @@ Record CountInv (s : state) (k : list frame) : Prop := {
       strong b = Uninit /\ links b = None;
   (* no handle and no obligation names an allocation that never existed *)
   ci_range : forall o, nth_error (heap_of s) o = None ->
-      W (sw_strong o) s k = 0 /\ W (sw_weak o) s k = 0 /\ n_after o k = 0 /\ n_fin o k = 0;
+      W (sw_strong o) s k = 0 /\ W (sw_weak o) s k = 0 /\ n_after o k = 0 /\ n_fin o k = 0 /\
+      n_leak o (log s) = 0;
 }.
 
 (** ** C01: handles held by the program or by values inside boxes target live objects *)
@@ -135,7 +136,8 @@ Definition frame_oids (f : frame) : list oid :=
 Definition all_oids (s : state) (k : list frame) : list oid :=
   flat_map reg_oids (regs s) ++
   flat_map (fun b => match value b with Some p => payload_oids p | None => [] end) (heap_of s) ++
-  flat_map frame_oids k.
+  flat_map frame_oids k ++
+  flat_map (fun e => match e with EvLeak o => [o] | _ => [] end) (log s).
 
 Definition rangeb (s : state) (k : list frame) : bool :=
   forallb (fun o => Nat.ltb o (length (heap_of s))) (all_oids s k).
